@@ -132,7 +132,7 @@ def _extend(pid, extra):
 
 _extend('C14', 'ADDED (unit K-undo): Database::rollback_to_savepoint / undo_change apply the inverse of every change recorded since the savepoint, last first, '
         'over table contents as bags (Insert: take the row out; Update: take the NEW row out, put the OLD row back; Delete: put the row back). That the executors RECORD '
-        'every change is not under contract: plain INSERT / UPDATE / DELETE do (SQL reproduction), REPLACE, ON DUPLICATE KEY UPDATE, FK cascades do not.')
+        'every change they make is not under contract (since the fixes bd4781a4 and 1ce19e95 INSERT, UPDATE, DELETE, REPLACE, ON DUPLICATE KEY UPDATE and the FK cascade actions do: SQL reproductions in findings/).')
 _extend('C10', 'ADDED (unit K-pk): enforce_primary_key_constraint / enforce_unique_constraints / enforce_check_constraints on INSERT - an accepted row repeats no PRIMARY KEY '
         'and no NULL-free UNIQUE key of the batch or of a stored row (index lookup and scan fallback), NULL-holding UNIQUE keys never collide, CHECK rejects exactly FALSE; '
         '(unit K-table) every Table mutator leaves the hash indexes in sync (IndexManager by assumed contracts). RowValidator, the UPDATE-side validator, REPLACE and '
